@@ -306,6 +306,9 @@ func parsePacketAdaptationField(i *astikit.BytesIterator) (a *PacketAdaptationFi
 
 	a.StuffingLength = a.Length - (i.Offset() - afStartOffset)
 
+	// An adaptation field of length 0 is the one byte stuffing form: remember it so that the packet can be written again
+	a.IsOneByteStuffing = a.Length == 0
+
 	return
 }
 
